@@ -376,3 +376,141 @@ func VH_C10_ConcurrentBatch() {
 	c.Close()
 	vhReach("c10-concurrent-batch")
 }
+
+// C10-H9 (lock hand-off schedule): the synchronised Reader methods from three goroutines at once - reading,
+// SetOffset/Offset/Lag/Stats, Close - with the background reader goroutine alive; lockset analysis over every field
+// of the Reader plus the declared guards.
+func VH_C10_ConcurrentReader() {
+	vhConcreteClock(true)
+	vhHandoff(true)
+	const n = 2
+	var set []byte
+	for i := 0; i < n; i++ {
+		set = append(set, vhEncMessage(int64(i), 1, 0, 1600000000000, nil, []byte{byte('a' + i)})...)
+	}
+	meta := append(vhApiVersionsFrame(1, []vhApiRange{{int16(metadata), 0, 1}}), vhMetadataResponse(2, 1, "t", 0, 0, 1)...)
+	var s []byte
+	s = append(s, vhListOffsetsFrame(1, "t", 0, 0, -1, 0)...)
+	s = append(s, vhListOffsetsFrame(2, "t", 0, 0, -1, int64(n))...)
+	s = append(s, vhListOffsetsFrame(3, "t", 0, 0, -1, 0)...)
+	s = append(s, vhListOffsetsFrame(4, "t", 0, 0, -1, int64(n))...)
+	s = append(s, vhApiVersionsFrame(5, []vhApiRange{{int16(fetch), 0, 2}})...)
+	s = append(s, vhFetchResponse(6, 2, 0, "t", 0, 0, int64(n), set)...)
+	mk := func() *vhFakeConn { return &vhFakeConn{data: s, gate: make(chan struct{}), gateAfter: len(s)} }
+	conns := []*vhFakeConn{{data: meta}, mk(), {data: meta}, mk()}
+	dials := 0
+	d := &Dialer{DialFunc: func(c context.Context, network, address string) (net.Conn, error) {
+		if dials >= len(conns) {
+			return nil, vhErrCoordinator
+		}
+		fc := conns[dials]
+		dials++
+		return fc, nil
+	}}
+	r := NewReader(ReaderConfig{Brokers: []string{"b:9092"}, Topic: "t", Partition: 0, Dialer: d, MinBytes: 1, MaxBytes: 100000, MaxWait: time.Second,
+		ReadLagInterval: -1})
+	vhGuarded(r, "version", &r.mutex)
+	vhGuarded(r, "offset", &r.mutex)
+	vhGuarded(r, "lag", &r.mutex)
+	vhGuarded(r, "closed", &r.mutex)
+	vhWatch(r)
+	// Reader.cancel is written under the mutex only while the reader is not closed, and read by Close outside the
+	// mutex only after Close has marked it closed under the mutex: ordered by the flag, not by a common lock, which a
+	// lockset analysis cannot see. It is stated as a read-only guard from Close on (VH_C10_Reader) instead.
+	vhUnwatch(r, "cancel")
+	vhGuardCheck(true)
+	ctx := context.Background()
+	fin := 0
+	go func() {
+		r.ReadMessage(ctx)
+		r.FetchMessage(ctx)
+		fin++
+	}()
+	go func() {
+		r.Offset()
+		r.SetOffset(1)
+		r.Lag()
+		r.Stats()
+		r.Offset()
+		fin++
+	}()
+	for i := 0; i < 4; i++ {
+		vhRunAll()
+	}
+	go func() {
+		r.Close()
+		fin++
+	}()
+	for i := 0; i < 6 && fin < 3; i++ {
+		vhRunAll()
+		time.Sleep(2 * time.Second)
+	}
+	vhGuardCheck(false)
+	vhAssert(fin == 3, "every-goroutine-returns")
+	vhReach("c10-concurrent-reader")
+}
+
+// C10-H10 (lock hand-off schedule): the balancers from two goroutines at once (they are documented as safe for
+// concurrent use): lockset analysis over RoundRobin and LeastBytes.
+func VH_C10_ConcurrentBalancers() {
+	vhHandoff(true)
+	parts := []int{0, 1, 2}
+	rr := &RoundRobin{ChunkSize: 2}
+	lb := &LeastBytes{}
+	vhGuarded(rr, "counter", &rr.mutex)
+	vhGuarded(lb, "counters", &lb.mutex)
+	vhWatch(rr)
+	vhWatch(lb)
+	vhGuardCheck(true)
+	fin := 0
+	for g := 0; g < 2; g++ {
+		go func() {
+			rr.Balance(Message{}, parts...)
+			lb.Balance(Message{Value: []byte("vv")}, parts...)
+			rr.Balance(Message{}, parts...)
+			lb.Balance(Message{Value: []byte("v")}, parts...)
+			fin++
+		}()
+	}
+	for i := 0; i < 4; i++ {
+		vhRunAll()
+	}
+	vhGuardCheck(false)
+	vhAssert(fin == 2, "every-goroutine-returns")
+	vhReach("c10-concurrent-balancers")
+}
+
+// C10-H11 (lock hand-off schedule): Transport.grabPool from two goroutines and CloseIdleConnections from a third,
+// interleaved at every Unlock: Transport.pools under Transport.mutex (declared guard on the map) plus lockset analysis
+// over the Transport's fields.
+func VH_C10_ConcurrentTransport() {
+	vhConcreteClock(true)
+	vhHandoff(true)
+	t := &Transport{Dial: func(ctx context.Context, network, address string) (net.Conn, error) { return nil, vhErrCoordinator }}
+	t.grabPool(TCP("vh:9092")).unref()
+	vhGuarded(t, "pools", &t.mutex)
+	vhWatch(t)
+	vhGuardCheck(true)
+	fin := 0
+	go func() {
+		t.grabPool(TCP("vh:9092")).unref()
+		t.grabPool(TCP("other:9092")).unref()
+		fin++
+	}()
+	go func() {
+		t.grabPool(TCP("other:9092")).unref()
+		t.grabPool(TCP("vh:9092")).unref()
+		fin++
+	}()
+	go func() {
+		t.CloseIdleConnections()
+		fin++
+	}()
+	for i := 0; i < 6 && fin < 3; i++ {
+		vhRunAll()
+	}
+	t.CloseIdleConnections()
+	vhGuardCheck(false)
+	vhAssert(fin == 3, "every-goroutine-returns")
+	vhReach("c10-concurrent-transport")
+}
